@@ -123,6 +123,11 @@ type e1 struct {
 	faultStep  int
 	stalled    []*Endpoint
 	byz        bool
+	planStep   int
+	planKind   string
+	planFired  bool
+	did        map[string]int // harness-driven closes/cancels that really happened -> step
+	probeStart int
 	ctl        []*ctlProxy
 	own        map[string]bool // oracle names owned by the property under check
 	enc        rawEnc
@@ -261,6 +266,13 @@ func (x *e1) setup() {
 		x.rt.Spawn("srv", func() {
 			err := srv.Serve(x.srvCtx, x.lis)
 			x.serveDone, x.serveErr, x.serveStep = true, err, x.d.Step
+			for _, t := range x.rt.Tasks() {
+				// goroutines that have signalled completion and are merely returning are
+				// runnable; a goroutine that is still blocked has not been torn down
+				if strings.HasPrefix(t.Name, "srv/") && (t.State == verifsim.StWaiting || t.State == verifsim.StChan) {
+					x.viol("serve-order", "Serve returned while a goroutine it started is still alive: "+x.roleOfTask(t.Name)+"@"+whereClass(t.Label), t.Name)
+				}
+			}
 			x.d.Record(taskName(), "serve-return", errStr(err))
 		})
 	} else {
@@ -303,29 +315,57 @@ func (x *e1) delay(what string, n int) {
 
 func (x *e1) runFaultTask(ft FaultTask) {
 	x.delay("fault-delay", ft.Delay)
-	x.d.Record(taskName(), "fault", ft.Kind)
-	x.res.fault(ft.Kind, 1)
-	if x.faultStep == 0 {
-		x.faultStep = x.d.Step
+	if x.did == nil {
+		x.did = map[string]int{}
+	}
+	done := func(what string) {
+		x.d.Record(taskName(), "fault", ft.Kind)
+		x.res.fault(ft.Kind, 1)
+		if _, ok := x.did[what]; !ok {
+			x.did[what] = x.d.Step
+		}
+		if x.faultStep == 0 {
+			x.faultStep = x.d.Step
+		}
 	}
 	switch ft.Kind {
 	case "stall-c2s":
+		done("stall")
 		x.sep.StalledIn = true
 		x.stalled = append(x.stalled, x.sep)
 	case "stall-s2c":
+		done("stall")
 		x.cep.StalledIn = true
 		x.stalled = append(x.stalled, x.cep)
-	case "close-client-conn", "close-client-conn-twice":
+	case "close-client-conn", "close-client-conn-twice", "close-client-conn-concurrent":
+		if x.conn == nil {
+			x.res.probe("planned_fault_before_conn_exists")
+			return
+		}
+		done("conn-close")
+		if ft.Kind == "close-client-conn-concurrent" {
+			x.rt.Spawn("closer2", func() { x.clientClose() })
+		}
 		x.clientClose()
 		if ft.Kind == "close-client-conn-twice" {
 			x.clientClose()
 		}
 	case "close-server-tr":
+		done("tr-close")
 		x.call("Transport.Close(server)", func() { x.sep.Close() })
 	case "close-client-tr":
+		done("tr-close")
 		x.call("Transport.Close(client)", func() { x.cep.Close() })
 	case "cancel-serve":
+		done("serve-cancel")
 		x.srvCancel()
+	case "listener-error":
+		if x.lis == nil {
+			x.res.probe("planned_fault_not_applicable")
+			return
+		}
+		done("serve-cancel")
+		x.lis.PushErr(errInjected)
 	}
 }
 
@@ -653,6 +693,7 @@ func classifyForeign(b []byte, wantRPC, wantDir int) string {
 
 func (x *e1) runProbe() {
 	r := x.probeRec
+	x.probeStart = x.d.Step
 	x.rt.Spawn("probe", func() {
 		ctx, cancel := context.WithCancel(context.Background())
 		defer cancel()
